@@ -84,6 +84,14 @@ fn run_case(case: &J, config: &Config, format: bool) -> Result<J, String> {
             result["repaired_veryl"] = J::String(fixed);
         }
     }
+    // cross-check: the same AST printed directly as Veryl by the generator (ports clk / rst of the
+    // default clock / reset types), simulated on the same stimulus
+    if let Some(direct) = case["veryl_direct"].as_str() {
+        let mut c2 = case.clone();
+        c2["clk"] = J::String("clk".to_string());
+        c2["rst"] = J::String("rst".to_string());
+        result["direct"] = analyse_and_run(&c2, config, direct, top, true)?;
+    }
     Ok(result)
 }
 
